@@ -208,7 +208,7 @@ def run(res, proof):
         proof.problem('driver', str(e))
     # resolve_kernel_loops as translated from the working tree (Gen/PyKernel.lean) against the real function, on parsed and malformed forests
     from .pykernel_stream import source_derived_pykernel
-    source_derived_pykernel(res, proof)
+    core.run_stream(source_derived_pykernel, res, proof)
     for l in lines[:6]:
         res.sample(l if len(l) < 200 else l[:200])
 
